@@ -1,10 +1,11 @@
 import Qats.Driver.Rainflow
 import Qats.Driver.FindReversals
+import Qats.Gen.DriverGen
 /-! All line-protocol handlers (core Lean only; imported by `Driver.lean`). -/
 namespace Qats.Driver
 
 def handlers : List (List String → Option String) :=
-  [Rainflow.handle, FindReversals.handle]
+  [Rainflow.handle, FindReversals.handle, Qats.Gen.handleGen]
 
 def dispatch (toks : List String) : String :=
   match handlers.findSome? (fun h => h toks) with
